@@ -33,6 +33,9 @@ class Gen:
         if 'class' in self.f:
             self.leaves += [('cls', 'any', 'c', 1), ('cls', 'any', 'c', 16), ('cls', 'any', 'c', 128), ('cls', 'none', 'c', 128),
                             ('cls', 'all', 'c', 65), ('rng', 97, 98), ('rng', 48, 122), ('cls', 'any', 'p', 8), ('cls', 'any', 'g', 2)]
+        if 'hibyte' in self.f:
+            # single bytes >= 0x80 as one-byte terminals (signedness of char) next to multi-byte literals
+            self.leaves += [('chr', 'e9'), ('chr', 'ff'), ('chr', '80'), ('str', 'ffe9'), ('chr', 'c3')]
         if 'utf8' in self.f:
             self.leaves += [('str', 'c3a9'), ('str', 'e282ac'), ('rng', 128, 2047), ('rng', 233, 8364), ('str', 'f09f9880')]
         ops = ['seq', 'seq', 'seq', 'alt', 'alt', 'star', 'plus', 'opt', 'not', 'and', 'rep', 'list']
